@@ -62,6 +62,14 @@ def default_of(typename):
 
 VER = ("int", 1)
 NONE = ("none",)
+_STR = {}
+
+
+def str_obs(s):
+    """observation of the python str s held by a string field (whatever shape recgen gives it)"""
+    if s not in _STR:
+        _STR[s] = obs_value("string", s)
+    return _STR[s]
 
 
 class Tokens:
@@ -71,7 +79,7 @@ class Tokens:
     def tok(self, o):
         if o == NONE:
             return "VNone"
-        if isinstance(o, tuple) and len(o) == 2 and o[0] == "str" and IDENT.match(o[1]):
+        if isinstance(o, tuple) and len(o) >= 2 and o[0] == "str" and IDENT.match(o[1]) and o == str_obs(o[1].decode()):
             return '(VName "%s")' % o[1].decode()
         k = repr(o)
         if k not in self.ids:
@@ -159,7 +167,7 @@ def ref_expand(r):
         return [r]
     out = []
     for n, t, v in tsf:
-        fields = [("ts", "datetime", v), ("ts_description", "string", ("str", n.encode()))]
+        fields = [("ts", "datetime", v), ("ts_description", "string", str_obs(n))]
         fields += [f for f in r["fields"] if f[0] not in ("ts", "ts_description")]
         out.append(dict(name=r["name"], fields=fields, res=[NONE, NONE, NOW, VER]))
     return out
@@ -409,7 +417,11 @@ def build_group(g, depth=0):
             args.append(build_group(g, depth + 1))
         else:
             args.append(g.record(g.descriptor(lo=0, hi=4)))
-    py = GroupedRecord(name, [a[0] if isinstance(a, tuple) else a for a in args])
+    try:
+        py = GroupedRecord(name, [a[0] if isinstance(a, tuple) else a for a in args])
+    except Exception as e:  # noqa
+        raise Bad("GroupedRecord(%r, %s) raised %s: %s" % (name, [describe(obs(m)) for m in group_members(args)], type(e).__name__, e),
+                  dict(error=repr(e)))
     return py, name, args
 
 
@@ -487,7 +499,7 @@ def make_kw(g, members_obs, allow_unknown=True):
     for k in rnd.sample(pool, min(len(pool), rnd.choice([0, 1, 1, 2, 2, 3]))):
         t = type_of_slot(members_obs, k)
         if t is None:
-            v, cv = "u", ("str", b"u")
+            v, cv = "u", str_obs("u")
         elif k == "_version":
             v, cv = 7, VER
         else:
@@ -642,9 +654,18 @@ KINDS = [("merge", case_merge, 250), ("extend", case_extend, 450), ("expand", ca
 def run_case(kind, fn, seed, i, T, defaults):
     rnd = random.Random("%d:%s:%d" % (seed, kind, i))
     g = CaseGen(rnd)
-    if kind == "init":
-        return fn(g, T, defaults)
-    return fn(g, T)
+    try:
+        if kind == "init":
+            return fn(g, T, defaults)
+        return fn(g, T)
+    except Bad:
+        raise
+    except Exception as e:  # noqa -- an exception outside the guarded calls (constructing or observing a composition)
+        import traceback
+        tb = traceback.extract_tb(e.__traceback__)
+        where = ["%s:%d %s" % (f.filename.rsplit("/", 1)[-1], f.lineno, f.name) for f in tb][-4:]
+        raise Bad("composition case %s #%d (seed %d) raised %s: %s at %s" % (kind, i, seed, type(e).__name__, e, where),
+                  dict(error=repr(e), where=where))
 
 
 def fixed_cases():
@@ -653,25 +674,37 @@ def fixed_cases():
     A = RecordDescriptor("t/a", [("datetime", "a"), ("string", "x"), ("datetime", "ts")])
     r = A(a=pydt.datetime(2001, 1, 1, tzinfo=UTC), x="xx", ts=pydt.datetime(2002, 2, 2, tzinfo=UTC), _generated=GENS[0])
     before = obs(r)
-    got = []
-    for o in iter_timestamped_records(r):
-        oo = obs(o)
-        oo["res"][2] = NOW
-        got.append(oo)
-    if got != ref_expand(before):
-        raise Bad("iter_timestamped_records(t/a(datetime a, string x, datetime ts)): the record for 'ts' carries %s, expected the "
-                  "original value of ts" % repr(got[1]["fields"][0][2] if len(got) > 1 else got),
-                  dict(fixed="expand-ts-named-field", got=repr(got), want=repr(ref_expand(before))))
+    what = "iter_timestamped_records(t/a(datetime a=2001-01-01, string x, datetime ts=2002-02-02))"
+    try:
+        got = []
+        for o in iter_timestamped_records(r):
+            oo = obs(o)
+            oo["res"][2] = NOW
+            got.append(oo)
+    except Exception as e:  # noqa
+        raise Bad("%s raised %s: %s" % (what, type(e).__name__, e), dict(fixed="expand-ts-named-field", error=repr(e)))
+    want = ref_expand(before)
+    if got != want:
+        tsvals = [dict((f[0], f[2]) for f in o["fields"]).get("ts") for o in got]
+        raise Bad("%s yielded records with ts = %s and fields %s; expected one record per datetime field with ts = that field's "
+                  "ORIGINAL value (a's, then ts's) followed by the original fields a, x" % (
+                      what, repr(tsvals), [[f[0] for f in o["fields"]] for o in got]),
+                  dict(fixed="expand-ts-named-field", got=repr(got), want=repr(want)))
     D1 = RecordDescriptor("m/a", [("string", "x"), ("varint", "p")])
     D2 = RecordDescriptor("m/b", [("string", "x"), ("string", "z")])
     m1, m2 = D1(x="ax", p=1, _generated=GENS[0]), D2(x="bx", z="bz", _generated=GENS[1])
     mobs = [obs(m1), obs(m2)]
-    new = GroupedRecord("grp/x", [m1, m2])._replace(z="new")
-    got = [obs(m) for m in new.records]
-    want = ref_group_replace(mobs, [("z", ("str", b"new"))])
+    what = "GroupedRecord('grp/x', [m/a(x='ax', p=1), m/b(x='bx', z='bz')])._replace(z='new')"
+    try:
+        new = GroupedRecord("grp/x", [m1, m2])._replace(z="new")
+        got = [obs(m) for m in new.records]
+    except Exception as e:  # noqa
+        raise Bad("%s raised %s: %s" % (what, type(e).__name__, e), dict(fixed="group-replace-shadowed", error=repr(e)))
+    want = ref_group_replace(mobs, [("z", str_obs("new"))])
     if got != want:
-        raise Bad("GroupedRecord('grp/x', [m/a(x='ax'), m/b(x='bx', z='bz')])._replace(z='new') gave members %s, expected m/b to keep x='bx'" % repr(got),
-                  dict(fixed="group-replace-shadowed", got=repr(got), want=repr(want)))
+        raise Bad("%s gave members %s, expected m/b to keep x='bx' and only z to change" % (
+            what, [[(f[0], f[2]) for f in m["fields"]] for m in got]),
+            dict(fixed="group-replace-shadowed", got=repr(got), want=repr(want)))
 
 
 def search(ctx, reason):
@@ -726,6 +759,7 @@ def correspondence(ctx):
     defaults = {t: default_of(t) for t in set(TYPES)}
     scale = 1 if ctx.tier == "quick" else 8
     terms, metas = [], []
+    sampled = set()
     try:
         fixed_cases()
     except Bad as b:
@@ -742,8 +776,9 @@ def correspondence(ctx):
             for t in ts:
                 terms.append(t)
                 metas.append((kind, i))
-            if i % max(1, (n * scale) // 1) == 0 and kind in ("extend", "expand", "greplace", "rewrite", "group"):
-                ctx.sample(dict(op=kind, index=i, case=repr(canon)[:400]))
+            if nontrivial and kind not in sampled and kind in ("extend", "expand", "greplace", "rewrite", "group", "merge"):
+                sampled.add(kind)
+                ctx.sample(dict(op=kind, index=i, case=repr(canon)[:600]))
     failing, err = core.eval_bool_cases(ctx, header(T), terms, shard_size=200, name="c15")
     if err:
         ctx.violation("correspondence shards did not evaluate: " + err[:300], dict(kind="coq-eval", log=err), no_input=True)
